@@ -59,7 +59,8 @@ def generate(rng, tier, index):
         elif kind == "cellface":
             x = -Lx / 2 + size * c.randint(0, nx - 1) * c.choice([1.0, 0.5, 0.25])
         vs = fast * min(Lx, Ly, Lz) / dt if c.chance(0.3) else 0.05 * size / dt
-        ps.append(dict(m=c.loguniform(1e-9, 1e-6), x=x, y=y, z=z, vx=c.uniform(-vs, vs), vy=c.uniform(-vs, vs), vz=c.uniform(-vs, vs),
+        # (some test particles: a cell whose only remaining occupant is massless must not keep the mass of those who left)
+        ps.append(dict(m=(0.0 if c.chance(0.15) else c.loguniform(1e-9, 1e-6)), x=x, y=y, z=z, vx=c.uniform(-vs, vs), vy=c.uniform(-vs, vs), vz=c.uniform(-vs, vs),
                        r=(c.loguniform(1e-3, 3e-2) * size if collision == "tree" else 0.0), hash=1000 + i, kind=kind))
     o = rng.derive("ops")
     ops = []
